@@ -89,7 +89,7 @@ func Concrete(e jrn.Entry) journal.Trip {
 	}
 	for _, s := range e.Sts {
 		st := journal.StopTime{
-			StopID:        jrn.StopPfx + strconv.Itoa(s.Stop),
+			StopID:        stopID(s.Stop),
 			ArrivalTime:   optPtr(s.Arr),
 			DepartureTime: optPtr(s.Dep),
 			LastObserved:  jrn.Tm(s.LastObs),
@@ -163,6 +163,21 @@ func cellOptTime(s string) abs.Opt[int] {
 	}
 	return abs.Some(cellTime(s))
 }
+// stop token 0 is the stop without an id: an empty cell
+func stopID(tok int) string {
+	if tok == 0 {
+		return ""
+	}
+	return jrn.StopPfx + strconv.Itoa(tok)
+}
+
+func stopCell(s string) int {
+	if s == "" {
+		return 0
+	}
+	return cellNum(jrn.StopPfx, s)
+}
+
 func cellNum(prefix, s string) int {
 	if len(s) <= len(prefix) || s[:len(prefix)] != prefix {
 		return -99999
@@ -239,7 +254,7 @@ func decode(x *journal.CsvExport) (Tables, error) {
 	}
 	for _, m := range stops {
 		row := StopRow{
-			Uid: jrn.ProjUID(m["trip_uid"]), Stop: cellNum(jrn.StopPfx, m["stop_id"]), Arr: cellOptTime(m["arrival_time"]),
+			Uid: jrn.ProjUID(m["trip_uid"]), Stop: stopCell(m["stop_id"]), Arr: cellOptTime(m["arrival_time"]),
 			Dep: cellOptTime(m["departure_time"]), LastObs: cellTime(m["last_observed"]), Marked: cellOptTime(m["marked_past"]),
 			Track: abs.None[int](),
 		}
